@@ -65,8 +65,8 @@ def plus (l : List String) : String := "+".intercalate l
 def cellsOf (w : Nat) (e : Elem) : TsRec (List Cell) :=
   (e.1, (List.range w).map (fun j => some (Int.ofNat (8 * e.2 + j))))
 
-/-- timestamps travel as unix nanoseconds (`time.Unix(key,0).UnixNano()`) -/
-def fmtStamped (stamp : Int) (body : String) : String := s!"{stamp * 1000000000}@{body}"
+/-- timestamps travel as unix nanoseconds; key k is the instant 2024-03-01T12:00Z + k·250µs (`c09Time` in the harness) -/
+def fmtStamped (stamp : Int) (body : String) : String := s!"{1709294400 * 1000000000 + stamp * 250000}@{body}"
 def fmtCells (cs : List Cell) : String := ",".intercalate (cs.map fmtCell)
 
 /-- Specification-side padding of a joined datasource row: present side = its cells, absent side = `w` nils. -/
